@@ -328,7 +328,7 @@ func (e *SpecEnv) expr(x Expr) (tv, error) {
 		}
 		switch u := a.ty.Underlying().(type) {
 		case *types.Slice:
-			return tv{t: fmt.Sprintf("(select (select %s (s.arr %s)) (+ (s.off %s) %s))", e.heap(d.sliceHeap(u.Elem())), a.t, a.t, i.t), ty: u.Elem()}, nil
+			return tv{t: fmt.Sprintf("(select (select %s %s) %s)", e.heap(d.sliceHeap(u.Elem())), slArr(a.t), slIdx(a.t, i.t)), ty: u.Elem()}, nil
 		case *types.Array:
 			return tv{t: fmt.Sprintf("(select %s %s)", a.t, i.t), ty: u.Elem()}, nil
 		case *types.Map:
@@ -745,10 +745,14 @@ func (e *SpecEnv) call(n *ECall) (tv, error) {
 				if id.Name == "cap" {
 					return tv{t: fmt.Sprintf("(s.cap %s)", a.t), ty: tInt}, nil
 				}
-				return tv{t: fmt.Sprintf("(s.len %s)", a.t), ty: tInt}, nil
+				return tv{t: slLen(a.t), ty: tInt}, nil
 			case *types.Basic:
 				if d.sortOf(u) == "String" {
 					return tv{t: fmt.Sprintf("(str.len %s)", a.t), ty: tInt}, nil
+				}
+				if d.sortOf(u) == "Str" {
+					d.strUFDecls()
+					return tv{t: fmt.Sprintf("(strlen %s)", a.t), ty: tInt}, nil
 				}
 			case *types.Map:
 				_, _, card := d.mapHeaps(u)
@@ -1030,4 +1034,63 @@ func (e *SpecEnv) allFieldsTargets(ref string, t types.Type) []modTarget {
 		}
 	}
 	return out
+}
+
+// syntactic simplification of slice accessors on visible constructors (mk-slice arr off len cap)
+func slParts(t string) []string {
+	if !strings.HasPrefix(t, "(mk-slice ") || !strings.HasSuffix(t, ")") {
+		return nil
+	}
+	body := t[len("(mk-slice ") : len(t)-1]
+	var parts []string
+	depth, start := 0, 0
+	inBar := false
+	for i := 0; i < len(body); i++ {
+		c := body[i]
+		switch {
+		case c == '|':
+			inBar = !inBar
+		case inBar:
+		case c == '(':
+			depth++
+		case c == ')':
+			depth--
+		case c == ' ' && depth == 0:
+			if i > start {
+				parts = append(parts, body[start:i])
+			}
+			start = i + 1
+		}
+	}
+	if start < len(body) {
+		parts = append(parts, body[start:])
+	}
+	if len(parts) != 4 {
+		return nil
+	}
+	return parts
+}
+
+func slArr(t string) string {
+	if p := slParts(t); p != nil {
+		return p[0]
+	}
+	return "(s.arr " + t + ")"
+}
+
+func slLen(t string) string {
+	if p := slParts(t); p != nil {
+		return p[2]
+	}
+	return "(s.len " + t + ")"
+}
+
+func slIdx(t, i string) string {
+	if p := slParts(t); p != nil {
+		if p[1] == "0" {
+			return i
+		}
+		return "(+ " + p[1] + " " + i + ")"
+	}
+	return "(+ (s.off " + t + ") " + i + ")"
 }
